@@ -744,6 +744,8 @@ package bits
 //@ func CeilLog2
 //@   notypeinv
 //@   ensures 0 <= result && result <= 32
+//@   ensures n >= 2 ==> result >= 1
+//@   loop 1 invariant 0 <= i && i <= 32 && (n >= 2 ==> i >= 1 || i == 0)
 //@   assigns nothing
 
 // ---------------------------------------------------------------- ByteWriter
